@@ -51,6 +51,14 @@ CHECKS['C04'] = ('model_checking',
          '(Rx Ry Rz RPY Eul AngVec EulerVec OA Exp) are compared across classes over their full argument products.',
          'Bounded: generator set of ~9 (thorough ~100) motions, depth 2 (thorough 3). UnitDualQuaternion has no inverse; it is re-embedded after inv.',
          'DESIGN.md 3/C04')
+CHECKS['C05'] = ('exploration',
+         'exhaustive product over angle-triple ladders x orders x flip x units x input forms x entry points, rebuilt by a harness constructor',
+         'All roll/pitch/yaw and Euler triples of the alphabets (pitch ladders on +-pi/2, Euler middle-angle ladders on 0 and +-pi, '
+         'offsets 1e-12..1e-1), all six RPY order names, flip, both units, 3x3 and 4x4 inputs, base functions and SO3/SE3/'
+         'UnitQuaternion/SE2/SO2 accessors; axis-angle over theta ladder x axes; planar over theta ladder x translations. '
+         'Rotations are built and rebuilt by the harness from the documented axis orders.',
+         'Bounded to the enumerated letters. The line monitor shows all four argmax arms and both singular arms of every tr2rpy order are reached.',
+         'DESIGN.md 3/C05')
 PENDING = {}
 
 def main():
